@@ -558,6 +558,10 @@ func (dht *FullRT) GetClosestPeers(ctx context.Context, key string) ([]peer.ID, 
 			peerAddrs := dht.peerAddrs[p]
 
 			if dht.ipDiversityFilterLimit > 0 {
+				// Collect the peer's IP groups first, so that a peer with several
+				// addresses in one group is counted once, and a peer that ends up
+				// being skipped is not counted in any group.
+				var ipGroups []peerdiversity.PeerIPGroupKey
 				for _, addr := range peerAddrs {
 					ip, err := manet.ToIP(addr)
 					if err != nil {
@@ -567,13 +571,19 @@ func (dht *FullRT) GetClosestPeers(ctx context.Context, key string) ([]peer.ID, 
 					if len(ipGroup) == 0 {
 						continue
 					}
-					if _, ok := ipGroupCounts[ipGroup]; !ok {
-						ipGroupCounts[ipGroup] = make(map[peer.ID]struct{})
+					if _, counted := ipGroupCounts[ipGroup][p]; counted {
+						continue
 					}
 					if len(ipGroupCounts[ipGroup]) >= dht.ipDiversityFilterLimit {
 						// This ip group is already overrepresented, skip this peer
 						continue PeersLoop
 					}
+					ipGroups = append(ipGroups, ipGroup)
+					if _, ok := ipGroupCounts[ipGroup]; !ok {
+						ipGroupCounts[ipGroup] = make(map[peer.ID]struct{})
+					}
+				}
+				for _, ipGroup := range ipGroups {
 					ipGroupCounts[ipGroup][p] = struct{}{}
 				}
 			}
